@@ -16,6 +16,7 @@
 #
 # Description:
 # Utility functions for code generation
+import copy
 from typing import List
 from typing import NamedTuple
 from typing import Optional
@@ -555,7 +556,17 @@ def calc_blockdep(
 
     # Check if IFM or IFM2 overlaps with prev op's OFM
     prev_ofm_ranges = get_address_ranges(prev_op.ofm)
-    ifm_ranges = get_address_ranges(npu_op.ifm)
+    ifm = npu_op.ifm
+    # RESIZE_BILINEAR with half pixel centers replicates the first column and/or row of its IFM through the tile registers
+    # (an IFM split in width, or in height with both parts starting at the same address): it reads one row/column more than
+    # the IFM shape has
+    ifm_replicates_edge = ifm.tiles.width_0 < ifm.shape.width or (
+        ifm.tiles.height_0 < ifm.shape.height and ifm.tiles.addresses[2] == ifm.tiles.addresses[0]
+    )
+    if ifm_replicates_edge:
+        ifm = copy.copy(ifm)
+        ifm.shape = NpuShape3D(height=ifm.shape.height + 1, width=ifm.shape.width + 1, depth=ifm.shape.depth)
+    ifm_ranges = get_address_ranges(ifm)
     ifm_overlaps = range_lists_overlap(prev_ofm_ranges, ifm_ranges)
     if has_ifm2(npu_op):
         assert npu_op.ifm2 is not None
@@ -581,9 +592,8 @@ def calc_blockdep(
         # The calculation below compares blocks of the two feature maps by coordinate, which is only valid if they
         # address the memory in the same way (not the case for e.g. the transposed OFM of a Transpose operation)
         return 0
-    if overlapping_fm.tiles.width_0 < overlapping_fm.shape.width:
-        # ...nor when the IFM is split in width: RESIZE_BILINEAR with half pixel centers replicates the first column
-        # (and row) through the tile registers, so its elements are shifted against the coordinates of the OFM
+    if overlapping_fm is npu_op.ifm and ifm_replicates_edge:
+        # ...nor when the elements of the IFM are shifted against the coordinates of the OFM
         return 0
 
     cur_ifm_block_depth = get_ifm_ofm_block_depth(arch, npu_op)
